@@ -348,7 +348,14 @@ func prepareCorrectionOptions(o *CorrectionOptions, opts ...schema.Option) error
 
 	// Copy over the stamps from the previous header
 	if o.Head != nil && len(o.Head.Stamps) > 0 {
-		o.Stamps = append(o.Stamps, o.Head.Stamps...)
+		// copies: raw JSON options are decoded over this list and must not
+		// write into the stamps of the source envelope's header
+		for _, s := range o.Head.Stamps {
+			if s != nil {
+				sc := *s
+				o.Stamps = append(o.Stamps, &sc)
+			}
+		}
 	}
 
 	// If we have a raw json object, this will override any of the other options
